@@ -24,6 +24,10 @@ def rot(axis, theta):
     return math.cos(theta / 2) * I2 - 1j * math.sin(theta / 2) * AXIS[axis]
 
 
+class ExtraQubitsEntangled(RuntimeError):
+    pass
+
+
 class StateVector:
     """pure state of the live physical qubits; tensor of shape (2,)*k, axes in `order`"""
 
@@ -89,6 +93,16 @@ class StateVector:
     def vector(self, phys_list):
         """state as a flat vector with the given qubit order (first = most significant)"""
         if sorted(phys_list) != sorted(self.order):
+            extra = [p for p in self.order if p not in phys_list]
+            if extra and all(p in self.order for p in phys_list):
+                # other qubits are still live (e.g. an ancilla that was kept): return the state of
+                # the requested qubits if it factors out, else report the entanglement
+                axes = [self.order.index(p) for p in phys_list] + [self.order.index(p) for p in extra]
+                flat = np.transpose(self.psi, axes).reshape(2 ** len(phys_list), -1)
+                u, sv, vh = np.linalg.svd(flat, full_matrices=False)
+                if len(sv) > 1 and sv[1] > 1e-9:
+                    raise ExtraQubitsEntangled(f"live qubits {self.order}, asked for {phys_list}: entangled")
+                return u[:, 0] * sv[0] / np.linalg.norm(u[:, 0] * sv[0])
             raise RuntimeError(f"live qubits {self.order}, asked for {phys_list}")
         axes = [self.order.index(p) for p in phys_list]
         return np.transpose(self.psi, axes).reshape(-1)
